@@ -79,6 +79,8 @@ Fixpoint rtree (fuel : nat) (pk : string) (st : state) (t : tree) : tree :=
       end
   end.
 
+Definition is_module_path (tg : string) : bool := match split_dots tg "" with [_; _] => true | _ => false end.
+
 (* after the merge: the aliases become symbolic again, the (possibly mutated) values they carried go back to where the
    final targets live.  Returns the symbolic tree and the updates (target path, value), innermost first. *)
 Fixpoint unresolve (t : tree) : tree * list (string * tree) :=
@@ -87,7 +89,10 @@ Fixpoint unresolve (t : tree) : tree * list (string * tree) :=
   | AlTo tg rt x =>
       let (x', ups) := unresolve x in
       match x with
-      | Obj _ _ => (Al tg rt, ups ++ [(tg, x')])
+      | Obj _ _ =>
+          (* an alias to a MODULE is never merged through (no stub member has kind module, pending overloads go to
+             functions): its value is unchanged and is not stored back - other aliases may have reached into that module *)
+          if is_module_path tg then (Al tg rt, []) else (Al tg rt, ups ++ [(tg, x')])
       | _ => (Al tg rt, ups)            (* the target is an alias itself: it stays what it is, its own target was updated *)
       end
   | Obj d ms =>
@@ -167,7 +172,8 @@ Definition arrive (fuel : nat) (pk : string) (s : seq_state) (nf : string * fmod
                   let newly_stale :=
                     if is_pyi old && negb (is_pyi f) then
                       flat_map (fun b => if String.eqb (b_home b) n
-                                         then match find pk [(n, f)] (b_target b) with Some _ => [b_alias b] | None => [] end
+                                         then if is_module_path (b_target b) then []     (* set_member re-targets aliases to the module itself *)
+                                              else match find pk [(n, f)] (b_target b) with Some _ => [b_alias b] | None => [] end
                                          else []) (s_bound s)
                     else [] in
                   mkS st1 nb (s_stale s ++ newly_stale) (s_dirty s || dirty) None
